@@ -33,6 +33,11 @@ def check(prop, tier, only):
                 for s in range(shards):
                     jobs.append(checks.J("h_compose", cfg, f"--part sib --scen {sc} --place {place} --shard {s} --of {shards}",
                                          name=f"siblings/{sc}/{place}/shard{s}of{shards}[{cfg}]"))
+        # doubling block source: the blocks of one allocator have different sizes (ownership must be decided per block; seed C08-N)
+        for sc in GROWING:
+            for s in range(shards):
+                jobs.append(checks.J("h_compose", cfg, f"--part sib --scen {sc} --place asc --grow 1 --shard {s} --of {shards}",
+                                     name=f"siblings/{sc}/asc-grow/shard{s}of{shards}[{cfg}]"))
         # thorough: depth 7 in rwd (what the repository's tests run), 6 in rel and dbg (the composition layers are header
         # templates without configuration dependent code; only the real pools behind the leaves differ)
         d = 5 if quick else (7 if cfg == "rwd" else 6)
